@@ -634,6 +634,8 @@ Plan generate(const std::string &profile, uint64_t seed, const GenLimits &lim)
     if (profile == "C03" || profile == "C04" || profile == "C05")
     {
         int nops = (int)r.range(1, 3);
+        if (profile != "C05" && r.chance(1, 6))
+            transform(K_EXTEND, 0); // the shared object has served an extension before (cached shift tables of another size)
         for (int i = 0; i < nops; i++)
         {
             maybe_icv(1, 4);
